@@ -210,10 +210,19 @@ def make_strategy(policy, log):
                 self._set_exits(r, sign, abs(self.position.qty))
             self._decl('on_open_position')
 
+        def _quiet(self):
+            """the policy's own fuse: its edits are functions of (hook, index, side), so a hook that re-declares something which
+            fills at once would repeat the same edit for ever inside one minute; after a few edits between two strategy steps the
+            increase/reduce hooks stop editing (the chain of fills then ends - what is left would be a livelock of jesse itself)"""
+            self._hook_edits = getattr(self, '_hook_edits', 0) + 1
+            return self._hook_edits > 6
+
         def on_increased_position(self, order):
             r = self._r('on_inc')
             log(self, 'hook', 'inc', order)
-            if P['resize_always'] and self.position.qty != 0:
+            if self._quiet():
+                pass
+            elif P['resize_always'] and self.position.qty != 0:
                 self._set_exits(r, 1 if self.position.qty > 0 else -1, abs(self.position.qty), 'both')
             elif r.random() < P['p_edit_increased'] and self.position.qty != 0:
                 sign = 1 if self.position.qty > 0 else -1
@@ -223,7 +232,9 @@ def make_strategy(policy, log):
         def on_reduced_position(self, order):
             r = self._r('on_reduced')
             log(self, 'hook', 'red', order)
-            if P['resize_always'] and self.position.qty != 0:
+            if self._quiet():
+                pass
+            elif P['resize_always'] and self.position.qty != 0:
                 self._set_exits(r, 1 if self.position.qty > 0 else -1, abs(self.position.qty), 'both')
             elif r.random() < P['p_inplace'] and self._inplace(r):
                 pass
@@ -272,6 +283,7 @@ def make_strategy(policy, log):
             self._decl('update_position')
 
         def before(self):
+            self._hook_edits = 0
             log(self, 'step', None)
 
         def after(self):
